@@ -21,6 +21,9 @@ use crate::{
 #[derive(Debug, Clone, Serialize, Deserialize, PartialEq)]
 pub enum Line {
     DurationMs(u64),
+    /// milliseconds printed with another number of fractional digits: 1 = trailing zeros trimmed
+    /// ("1.5", "7"), 2 = padded ("1.5000"), other = MPD's three digits
+    DurationStyled(u64, u8),
     TimeSecs(u64),
     RangeMs(u64, Option<u64>),
     Pos(u64),
@@ -59,6 +62,24 @@ fn ms(v: u64) -> String {
     format!("{}.{:03}", v / 1000, v % 1000)
 }
 
+pub fn ms_styled(v: u64, style: u8) -> String {
+    let base = ms(v);
+    match style % 3 {
+        1 => {
+            let t = base.trim_end_matches('0');
+            t.trim_end_matches('.').to_string()
+        }
+        2 => format!("{base}00"),
+        _ => base,
+    }
+}
+
+/// Name under which a tag line must be found: known names in any letter case belong to the named
+/// variant (C20), whose protocol name is the canonical spelling.
+pub fn folded(name: &str) -> String {
+    tag_table().iter().find(|(_, n)| n.eq_ignore_ascii_case(name)).map_or_else(|| name.to_string(), |(_, n)| n.to_string())
+}
+
 pub fn encode(entries: &[Entry]) -> Vec<u8> {
     let mut out = String::new();
     for e in entries {
@@ -68,6 +89,7 @@ pub fn encode(entries: &[Entry]) -> Vec<u8> {
                 for l in lines {
                     match l {
                         Line::DurationMs(v) => out.push_str(&format!("duration: {}\n", ms(*v))),
+                        Line::DurationStyled(v, st) => out.push_str(&format!("duration: {}\n", ms_styled(*v, *st))),
                         Line::TimeSecs(v) => out.push_str(&format!("Time: {v}\n")),
                         Line::RangeMs(a, b) => out.push_str(&format!("Range: {}-{}\n", ms(*a), b.map(ms).unwrap_or_default())),
                         Line::Pos(v) => out.push_str(&format!("Pos: {v}\n")),
@@ -129,7 +151,7 @@ fn expected(entries: &[Entry]) -> Vec<ExpSong> {
                 let mut time = None;
                 for l in lines {
                     match l {
-                        Line::DurationMs(v) => s.duration_ms = Some(*v),
+                        Line::DurationMs(v) | Line::DurationStyled(v, _) => s.duration_ms = Some(*v),
                         Line::TimeSecs(v) => time = Some(*v * 1000),
                         Line::RangeMs(a, b) => s.range = Some((*a, *b)),
                         Line::Pos(v) => s.pos = *v,
@@ -137,7 +159,7 @@ fn expected(entries: &[Entry]) -> Vec<ExpSong> {
                         Line::Prio(v) => s.prio = *v,
                         Line::Format(v) => s.format = Some(v.clone()),
                         Line::LastModified(v) => s.modified = Some(v.clone()),
-                        Line::Tag(k, v) => s.tags.entry(k.clone()).or_default().push(v.clone()),
+                        Line::Tag(k, v) => s.tags.entry(folded(k)).or_default().push(v.clone()),
                     }
                 }
                 if s.duration_ms.is_none() {
@@ -248,7 +270,9 @@ pub fn check(case: &Case) -> CaseResult {
     let interleaved = case.entries.iter().any(|e| !matches!(e, Entry::Song { .. }));
     let repeated = want.iter().any(|s| s.tags.values().any(|v| v.len() >= 2));
     let both = case.entries.iter().any(|e| match e {
-        Entry::Song { lines, .. } => lines.iter().any(|l| matches!(l, Line::TimeSecs(_))) && lines.iter().any(|l| matches!(l, Line::DurationMs(_))),
+        Entry::Song { lines, .. } => {
+            lines.iter().any(|l| matches!(l, Line::TimeSecs(_))) && lines.iter().any(|l| matches!(l, Line::DurationMs(_) | Line::DurationStyled(..)))
+        }
         _ => false,
     });
     r.class_if(songs >= 2, "two_or_more_songs");
@@ -256,6 +280,11 @@ pub fn check(case: &Case) -> CaseResult {
     r.class_if(interleaved, "directory_or_playlist_entries");
     r.class_if(repeated, "repeated_tag");
     r.class_if(both, "time_and_duration");
+    let recased = case.entries.iter().any(|e| match e {
+        Entry::Song { lines, .. } => lines.iter().any(|l| matches!(l, Line::Tag(k, _) if folded(k) != *k)),
+        _ => false,
+    });
+    r.class_if(recased, "known_tag_in_other_letter_case");
     r.class_if(want.iter().any(|s| s.range.is_some()) && want.iter().any(|s| s.range.is_none()) && songs >= 2, "range_on_some_songs");
     r.class(match case.decoder {
         Decoder::Queue => "Queue",
@@ -339,7 +368,16 @@ fn tag_line() -> impl Strategy<Value = Line> {
         1 => prop_oneof![Just("MUSICBRAINZ_RELEASEGROUPID"), Just("Mood"), Just("TitleSort"), Just("ShowMovement"), Just("time"), Just("pos")].prop_map(str::to_string),
         1 => "[A-Z][a-z]{3,8}".prop_filter("not reserved", |s| !RESERVED.contains(&s.as_str()) && canonical_or_unknown(s)),
     ];
-    (name, text()).prop_map(|(k, v)| Line::Tag(k, v))
+    // servers other than MPD may spell known tags in another letter case; the crate parses them
+    // case-insensitively, so they belong to the same tag
+    (name, text(), 0..12u8).prop_map(|(k, v, recase)| {
+        let k = match recase {
+            0 => k.to_lowercase(),
+            1 => k.to_uppercase(),
+            _ => k,
+        };
+        Line::Tag(k, v)
+    })
 }
 
 fn maybe<S: Strategy + 'static>(enabled: bool, p: f64, s: S) -> BoxedStrategy<Option<S::Value>>
@@ -365,11 +403,12 @@ fn song(in_queue: bool) -> impl Strategy<Value = Entry> {
         prop::option::weighted(0.6, timestamp()),
         prop::collection::vec(tag_line(), 0..10usize),
         any::<u64>(),
+        0..6u8,
     )
-        .prop_map(|(url, dur, time, range, posid, prio, format, lm, tags, shuffle)| {
+        .prop_map(|(url, dur, time, range, posid, prio, format, lm, tags, shuffle, dstyle)| {
             let mut lines: Vec<Line> = tags;
             if let Some(v) = dur {
-                lines.push(Line::DurationMs(v));
+                lines.push(if dstyle < 3 { Line::DurationMs(v) } else { Line::DurationStyled(v, dstyle) });
             }
             if let Some(v) = time {
                 lines.push(Line::TimeSecs(v));
